@@ -321,7 +321,24 @@ def r4_rating_freshness(ctx):
                     and norm(n.value).endswith("._rating") and \
                     literal(n.slice) in (-1, 5):
                 readers.append((m, q, f, n))
-    ctx.floor("readers of the cached rating value", len(readers), 2)
+    # the rating map shows the curve's rating: it must not rate again
+    # (rate_quality() with default arguments replaces a rating that was
+    # made with another regressor / training set / feature selection)
+    qm_ = ctx.repo.mod("qmap")
+    for q, f in qm_.funcs.items():
+        if not q.startswith("QMap.feat_"):
+            continue
+        for c in calls_in(f):
+            if isinstance(c.func, ast.Attribute) and c.func.attr == \
+                    "rate_quality":
+                ctx.fail(c, f"{q} calls rate_quality",
+                         f"qmap.{q} computes a rating instead of showing "
+                         f"the curve's stored one: `{norm(c)[:40]}` rates "
+                         f"with the default regressor and training set, so "
+                         f"a curve rated with other settings is shown with "
+                         f"a different number and its stored rating is "
+                         f"overwritten by reading the map")
+    ctx.floor("readers of the cached rating value", len(readers), 1)
     for m, q, f, n in readers:
         recv = norm(n.value)
         Rr = Resolver(f)
